@@ -38,7 +38,9 @@ class OA(np.ndarray):
             flat = out.ravel()
             for i, x in enumerate(self.ravel()):
                 flat[i] = x.imag if isinstance(x, (SC, complex)) else 0
-            return out.view(OA)
+            v = out.view(_ImagView)
+            v._base = self
+            return v
         return np.ndarray.imag.__get__(self)
 
     def astype(self, dtype, *a, **k):
@@ -62,6 +64,34 @@ class OA(np.ndarray):
 
     def __array_finalize__(self, obj):
         pass
+
+
+class _ImagView(OA):
+    """the imaginary parts of a complex-valued object array; item assignment writes through to the base array
+    (`vec._data.imag[:] = 0.0` in the complex-step scheme must really clear them)"""
+    _base = None
+
+    def __array_finalize__(self, obj):
+        self._base = None
+
+    def __setitem__(self, key, value):
+        np.ndarray.__setitem__(self, key, value)
+        base = self._base
+        if base is None:
+            return
+        idx = np.arange(base.size).reshape(base.shape)[key]
+        bf = base.reshape(-1)
+        if bf.base is not base and base.size and not np.shares_memory(bf, base):
+            return          # non-contiguous base: cannot write through
+        mine = np.ndarray.reshape(self, -1)
+        for i in np.asarray(idx).reshape(-1):
+            x = bf[i]
+            re = x.real if isinstance(x, (SC, complex)) else x
+            im = np.ndarray.__getitem__(mine, int(i))
+            zero = (not isinstance(im, (SR, SC))) and im == 0
+            if isinstance(im, SR) and im.is_const() and im.const_value() == 0:
+                zero = True
+            bf[i] = re if zero else SC(SR.lift(re), SR.lift(im))
 
 
 def _RealView(a):
